@@ -108,6 +108,40 @@ def gen_c07(seed):
         c["model"] = 0
         val.append(c)
     spec["val"] = val
+    rd = rnd(seed, "deeponet")
+    if rd.random() < 0.25:
+        # physics-informed DeepONet conditions sharing one DeepONet; function sets drawn afresh every step or fixed
+        spec["don"] = {"thidden": rd.choice(([4], [3, 3])), "bhidden": rd.choice(([4], [5, 3])), "m": rd.choice((2, 3)),
+                       "disc": [round(0.05 + 0.9 * j / 5, 4) for j in range(rd.choice((3, 6)))]}
+        size = rd.choice((1, 2, 3))
+        spec["fsets"] = [({"fam": rd.choice(("lin", "sin", "quad")), "kn": size} if rd.random() < 0.4 else
+                          {"fam": rd.choice(("lin", "sin", "quad")), "ks": [round(rd.uniform(0.1, 1.5), 3) for _ in range(size)]})
+                         for _ in range(rd.choice((1, 2, 2)))]
+
+        def pidon(det):
+            kind = rd.choice(("data", "grid") if det else ("data", "grid", "random"))
+            smp = {"kind": kind}
+            if kind == "data":
+                smp["pts"] = [round(rd.uniform(0, 1), 3) for _ in range(rd.choice((1, 3, 5)))]
+            else:
+                smp["n"] = rd.choice((2, 4))
+            cs = {"kind": "pidon", "weight": rd.choice((1.0, 0.5, 2.0)), "model": 0, "fset": rd.randrange(len(spec["fsets"])),
+                  "tsampler": smp, "resid": rd.choice(("u_minus_f", "u_minus_c", "du_minus_f")), "c": rd.choice((0.5, 1.0))}
+            if cs["resid"] != "du_minus_f" and rd.random() < 0.5:
+                cs["track"] = False        # data-like residual: no input gradients (validation then runs without grad)
+            return cs
+        for _ in range(rd.choice((1, 2, 2))):
+            spec["conds"].append(pidon(False))
+        if rd.random() < 0.5:
+            # a validation condition on the same DeepONet (fixed function parameters: no draws that shift the stream)
+            vfs = [i for i, f in enumerate(spec["fsets"]) if not f.get("kn")]
+            if not vfs:
+                spec["fsets"].append({"fam": "lin", "ks": [round(rd.uniform(0.1, 1.5), 3) for _ in range(size)]})
+                vfs = [len(spec["fsets"]) - 1]
+            v = pidon(True)
+            v["fset"] = rd.choice(vfs)
+            spec["val"].append(v)
+            val = spec["val"]
     tr = {"sanity": r.choice((0, 0, 2)), "log_every_n_steps": r.choice((None, 1, 3, 50))}
     if val:
         tr["val_check_interval"] = r.choice((None, 1, 2, 3))
